@@ -241,8 +241,12 @@ def r5(rr, repo):
         rr.unresolved('the statement that chains a filter to the previous one was not found', cmod, loop, key='chain-sink-form')
     else:
         conj = [U(v).replace(' ', '').replace('"', "'") for v in (sink[0].test.values if isinstance(sink[0].test, ast.BoolOp) and isinstance(sink[0].test.op, ast.And) else [sink[0].test])]
-        rr.ob("a filter is chained to the previous one exactly when there is a previous one and the user said nothing about its sources", sorted(conj) == sorted(['last_source', f"'sources'notin{cfg}"]), cmod, sink[0],
-              witness=U(sink[0].test)[:100], key='chain-sink')
+        known_atoms = {'last_source', 'notlast_source', f"'sources'notin{cfg}", f"'sources'in{cfg}"}
+        if set(conj) <= known_atoms:
+            rr.ob("a filter is chained to the previous one exactly when there is a previous one and the user said nothing about its sources", sorted(conj) == sorted(['last_source', f"'sources'notin{cfg}"]), cmod, sink[0],
+                  witness=U(sink[0].test)[:100], key='chain-sink')
+        else:
+            rr.unresolved('the condition under which a filter is chained to the previous one is written in a way this rule does not know', cmod, sink[0], witness=U(sink[0].test)[:100], key='chain-sink')
     src = [st for st in loop.body if isinstance(st, ast.If) and any(isinstance(x, ast.Assign) and any(U(t) == 'last_source' for t in x.targets) for x in st.body)]
     if len(src) != 1:
         rr.unresolved('the statement that offers a filter as the next one\'s source was not found', cmod, loop, key='chain-source-form')
@@ -250,7 +254,12 @@ def r5(rr, repo):
         t = src[0].test
         ok = isinstance(t, ast.BoolOp) and isinstance(t.op, ast.And) and len(t.values) == 2 and isinstance(t.values[0], ast.BoolOp) and isinstance(t.values[0].op, ast.Or) and \
             sorted(U(v).replace(' ', '').replace('"', "'") for v in t.values[0].values) == sorted([f"'outputs'notin{cfg}", f'{cfg}.outputs']) and U(t.values[1]).startswith('filter_can_do_filter_outputs(')
-        rr.ob("a filter becomes the next one's default source when its outputs are unmentioned or non-empty, and its class can produce filter outputs", ok, cmod, src[0], witness=U(t)[:120], key='chain-source')
+        atoms = {U(x).replace(' ', '').replace('"', "'") for x in ast.walk(t) if isinstance(x, (ast.Compare, ast.Attribute, ast.Call)) and not any(x is y for z in ast.walk(t) if isinstance(z, (ast.Compare, ast.Call)) and z is not x for y in ast.walk(z) if y is not z)}
+        known = all(a in (f"'outputs'notin{cfg}", f"'outputs'in{cfg}", f'{cfg}.outputs') or a.startswith('filter_can_do_filter_outputs(') for a in atoms)
+        if ok or known:
+            rr.ob("a filter becomes the next one's default source when its outputs are unmentioned or non-empty, and its class can produce filter outputs", ok, cmod, src[0], witness=U(t)[:120], key='chain-source')
+        else:
+            rr.unresolved("the condition under which a filter becomes the next one's default source is written in a way this rule does not know", cmod, src[0], witness=U(t)[:120], key='chain-source')
         st_ = [x for x in src[0].body if isinstance(x, ast.Assign) and any(U(t_) == 'last_source' for t_ in x.targets)]
         rr.ob('... and it is offered under its own id', bool(st_) and U(st_[0].value) == f'{cfg}.id', cmod, st_[0] if st_ else src[0], witness=U(st_[0].value) if st_ else '', key='chain-source-id')
 
